@@ -102,7 +102,7 @@ struct Outcome {
 // field groups for comparison masks
 enum Field : unsigned {
   F_KIND = 1u << 0, F_HANDLER = 1u << 1, F_REPCOUNT = 1u << 2, F_REPCULPRIT = 1u << 3,
-  F_REPDETAIL = 1u << 4, F_OK = 1u << 5, F_TRACE = 1u << 6, F_CLOG = 1u << 7, F_QEXP = 1u << 8,
+  F_REPDETAIL = 1u << 4, F_OKREP = 1u << 5, F_TRACE = 1u << 6, F_CLOG = 1u << 7, F_QEXP = 1u << 8,
   F_QSEQ = 1u << 9, F_MISC = 1u << 10,
   F_STATE = F_KIND | F_HANDLER | F_QEXP | F_QSEQ,  // fields whose deviation means the model state is no longer the implementation's
   F_ALL = (1u << 11) - 1
